@@ -26,6 +26,7 @@ func c08(c *Ctx) {
 	c08R7(c)
 	// trimming only removes idle, non-primary addresses (shared rule)
 	c03R2(c)
+	c03R6(c)
 }
 
 // R1 per-interface quota.
